@@ -45,7 +45,7 @@ theorem lookup_filter_ne (l : List (Str × FileSt)) (p q : Str) :
   exact lookup_filter_ne _ _ _
 
 @[simp] theorem get_write (fs : FS) (p q c : Str) :
-    (fs.write p c).get q = if q = p then some ⟨c, fs.clock + 1⟩ else fs.get q := by
+    (fs.write p c).get q = if q = p then some ⟨c, fs.clock + 1, fs.writeMode p⟩ else fs.get q := by
   unfold FS.write
   have : ∀ (g : FS) (n : Nat), ({ g with clock := n } : FS).get q = g.get q := fun _ _ => rfl
   rw [this, get_set]
@@ -103,11 +103,11 @@ theorem get_writeOut (fs : FS) (w : Writer) (p c q : Str) (old : FileSt)
       match w with
       | .viaReplaceIfDifferent =>
         if q = tmpOf p then none
-        else if q = p then (if old.content = c then some old else some ⟨c, fs.clock + 1⟩)
+        else if q = p then (if old.content = c then some old else some ⟨c, fs.clock + 1, fs.writeMode (tmpOf p)⟩)
         else fs.get q
       | .viaReplace =>
-        if q = p then some ⟨c, fs.clock + 1⟩ else if q = tmpOf p then none else fs.get q
-      | .inPlace => if q = p then some ⟨c, fs.clock + 1⟩ else fs.get q := by
+        if q = p then some ⟨c, fs.clock + 1, fs.writeMode (tmpOf p)⟩ else if q = tmpOf p then none else fs.get q
+      | .inPlace => if q = p then some ⟨c, fs.clock + 1, fs.writeMode p⟩ else fs.get q := by
   have hne := tmpOf_ne p
   cases w with
   | viaReplaceIfDifferent =>
@@ -115,9 +115,9 @@ theorem get_writeOut (fs : FS) (w : Writer) (p c q : Str) (old : FileSt)
     have h1 : (fs.write (tmpOf p) c).get p = some old := by
       have : ¬ p = tmpOf p := fun e => hne e.symm
       rw [get_write]; simp [this, hp]
-    have h2 : (fs.write (tmpOf p) c).get (tmpOf p) = some ⟨c, fs.clock + 1⟩ := by
+    have h2 : (fs.write (tmpOf p) c).get (tmpOf p) = some ⟨c, fs.clock + 1, fs.writeMode (tmpOf p)⟩ := by
       rw [get_write]; simp
-    rw [get_replaceIfDifferent _ _ _ _ old ⟨c, fs.clock + 1⟩ h1 h2 hne]
+    rw [get_replaceIfDifferent _ _ _ _ old ⟨c, fs.clock + 1, fs.writeMode (tmpOf p)⟩ h1 h2 hne]
     by_cases a : q = tmpOf p
     · simp [a]
     · by_cases b : q = p
@@ -125,7 +125,7 @@ theorem get_writeOut (fs : FS) (w : Writer) (p c q : Str) (old : FileSt)
       · simp [a, b, get_write]
   | viaReplace =>
     simp only [writeOut]
-    have h2 : (fs.write (tmpOf p) c).get (tmpOf p) = some ⟨c, fs.clock + 1⟩ := by
+    have h2 : (fs.write (tmpOf p) c).get (tmpOf p) = some ⟨c, fs.clock + 1, fs.writeMode (tmpOf p)⟩ := by
       rw [get_write]; simp
     rw [get_replace _ _ _ _ _ h2]
     by_cases b : q = p
@@ -134,5 +134,15 @@ theorem get_writeOut (fs : FS) (w : Writer) (p c q : Str) (old : FileSt)
       · simp [a, b]
       · simp [a, b, get_write]
   | inPlace => simp only [writeOut, get_write]
+
+theorem get_copymode (fs : FS) (src dst q : Str) (s d : FileSt) (hs : fs.get src = some s) (hd : fs.get dst = some d) :
+    (fs.copymode src dst).get q = if q = dst then some { d with mode := s.mode } else fs.get q := by
+  unfold FS.copymode
+  rw [hs, hd]
+  simp
+
+@[simp] theorem clock_copymode (fs : FS) (src dst : Str) : (fs.copymode src dst).clock = fs.clock := by
+  unfold FS.copymode
+  split <;> rfl
 
 end MesonModel.Det
